@@ -98,8 +98,11 @@ VarIdx(pt) == {i \in 1..Len(pt) : pt[i].kind # "lit"}
 \* trailing slashes belong to it is left open); any other variable for its segment's value
 ValueOK(pt, rt, path, i, v) ==
   IF pt[i].kind = "tail"
-  THEN /\ TrimR(v, "/") = TrimR(TailJoin(rt, i), "/")
-       /\ v = TailJoin(rt, i) \/ EndsWithSlash(path)
+  THEN IF Canon(path)
+       THEN /\ TrimR(v, "/") = TrimR(TailJoin(rt, i), "/")
+            /\ v = TailJoin(rt, i) \/ EndsWithSlash(path)
+       \* repeated slashes: which of them belong to the tail is left open
+       ELSE Trim(v, "/") = Trim(TailJoin(rt, i), "/")
   ELSE v = (IF i <= Len(rt) THEN Value(pt[i], rt[i]) ELSE "")
 ParamsExact(R, rt, path, o) ==
   \A i \in VarIdx(R.pt) :
@@ -113,7 +116,7 @@ RoundTrip(R, rt, path, o) ==
       sub == [i \in 1..n |-> IF R.pt[i].kind = "lit" THEN SubstTok(R.pt[i], "")
                              ELSE SubstTok(R.pt[i], ParamVal(o, R.pt[i].name))]
       back == JoinWith(sub, "/")
-  IN TrimR(back, "/") = TrimR(JoinWith(rt, "/"), "/")
+  IN Trim(back, "/") = Trim(JoinWith(rt, "/"), "/")
 ParamsOK(R, rt, path, o) ==
   ParamsNames(R, o) /\ ParamsExact(R, rt, path, o) /\ RoundTrip(R, rt, path, o)
 
